@@ -6,7 +6,7 @@ import ast
 from fractions import Fraction
 from typing import Optional
 
-from ..core.repo import (AnalysisError, Repo, call_name, calls_in, definitions, dotted, func_params, is_const,
+from ..core.repo import (AnalysisError, Repo, attrs_in, call_name, calls_in, definitions, dotted, func_params, is_const,
                          kwarg, names_in, unparse, walk_no_nested_defs)
 from ..domains.algnf import NotArithmetic, Poly, Rat, from_ast
 
@@ -583,6 +583,21 @@ def run(check, repo: Repo) -> None:
     check.decide(bool(lim_calls) and all(c.args and unparse(c.args[0]) == "data" for c in lim_calls), "C20-R3", "CustomNormalization._set_limits takes the limits from get_limits(data)", "",
                  mod.line(sl), fail_detail="get_limits is not evaluated on the data handed to _set_limits")
     check.floor("_set_limits: frozen intervals", n_frz, 1)
+    # every normal path through _set_limits installs the frozen interval (CFG must-pass-through).  A path that keeps the old interval is only
+    # harmless when its guard establishes that BOTH limits of that interval are already fixed; a bare type test does not (ManualInterval() with a
+    # missing limit re-derives it from whatever array it is later applied to).
+    from ..core.cfg import assigned_on_every_path
+    every, via_, _cfg = assigned_on_every_path(sl, lambda t: dotted(t) == "self.interval")
+    key_ = "CustomNormalization._set_limits: every path installs the frozen ManualInterval (the limits seen by later calls are the ones reported as vmin/vmax)"
+    if every:
+        check.holds("C20-R3", key_, f"{len(via_)} store(s) cover every normal exit", mod.line(sl))
+    else:
+        guards_ = [n for n in ast.walk(sl) if isinstance(n, ast.If) and any(isinstance(x, ast.Assign) and dotted(x.targets[0]) == "self.interval" for b in (n.body, n.orelse) for s_ in b for x in ast.walk(s_))]
+        mentions_limits = any({"vmin", "vmax"} & attrs_in(g.test) or any(isinstance(x, ast.Constant) and x.value is None for x in ast.walk(g.test)) for g in guards_)
+        if not guards_ or mentions_limits:
+            raise AnalysisError("_set_limits: a path leaves the interval as it was under a condition on its limits — not decided")
+        check.violated("C20-R3", key_, f"under `{unparse(guards_[0].test)[:70]}` the interval is left as it was: a ManualInterval with a missing limit stays unfrozen, so the next array "
+                       f"it is applied to re-derives that limit — vmin/vmax no longer map to 0/1 and equal values map differently from call to call", mod.line(guards_[0]), definite=True)
 
     # ---- R4b derived accessors of the (mutable) stretch/interval dataclasses are recomputed on every access ----------------------------------
     n_acc = 0
